@@ -461,7 +461,17 @@ MicroSteps(f, stk) ==
                         \cup {<<"select_columns", <<k>>>> : k \in {"w", "z"} \cap SetOf(cols)}
     [] f = "oo"      -> {<<"order_rows", <<k>>, r, lim>> : k \in {"o", "z", "w"} \cap SetOf(cols), r \in {<<>>}, lim \in {0, 1}}
     \* an ordering with a limit in either direction, right before a window ordered by the same column in either direction
-    [] f = "oor"     -> UNION {{<<"order_rows", <<k>>, r, lim>> : r \in {<<>>, <<k>>}, lim \in {0, 2}} : k \in {"o"} \cap SetOf(cols)}
+    [] f = "oor"     -> UNION {{<<"order_rows", <<k>>, r, lim>> : r \in {<<>>, <<k>>}, lim \in {0, 1, 2}} : k \in {"o"} \cap SetOf(cols)}
+    \* two windows that differ in their partition (none = the whole table / by y) with the same ordering, independent targets
+    [] f = "wp"      -> {<<"wextend", <<a>>, p, <<"o">>, <<>>>> : a \in {<<"w", "cumsum", "x", 0>>, <<"v", "_row_number", "", 0>>},
+                                                                   p \in {<<>>, <<"y">>}}
+                        \cup {<<"wextend", <<a>>, p, <<>>, <<>>>> : a \in {<<"w", "sum", "x", 0>>, <<"v", "_size", "", 0>>},
+                                                                     p \in {<<>>, <<"y">>}}
+    \* the FIRST table again as a second branch (a later part of the pipeline reads a table an earlier part reads too)
+    [] f = "stack1"  -> IF n < 2 THEN {<<"table", "t1">>} ELSE {}
+    \* a join whose keys have different names on the two sides (left.o = right.x)
+    [] f = "bink"    -> IF n >= 2 /\ "o" \in SetOf(stk[n - 1].cols) /\ "x" \in SetOf(cols)
+                          THEN {<<"join", jt, <<<<"o", "x">>>>>> : jt \in {"INNER", "LEFT"}} ELSE {}
     \* one grouped project, a selection that keeps everything, a select_columns that reverses the column order
     [] f = "po1"     -> IF {"o", "x"} \subseteq SetOf(cols) THEN {<<"project", <<<<"w", "sum", "x">>>>, <<"o">>>>} ELSE {}
     [] f = "sr"      -> {<<"select_rows", <<"b", ">=", C(k), K(0)>>>> : k \in {"o"} \cap SetOf(cols)}
